@@ -76,18 +76,19 @@ type evRec struct {
 }
 
 type world struct {
-	c             *EngCase
-	eng           timing.Engine
-	seq           uint64
-	recs          []*evRec
-	inflight      int
-	V             *kit.Violation
-	paused        bool // between Pause() returning and Continue() being called
-	startedPaused int  // handler starts in the current pause
-	runDone       bool
-	ctlDone       bool
-	pausesDone    int
-	phase         *kit.Violation
+	c                *EngCase
+	eng              timing.Engine
+	seq              uint64
+	recs             []*evRec
+	inflight         int
+	V                *kit.Violation
+	paused           bool // between Pause() returning and Continue() being called
+	startedPaused    int  // handler starts in the current pause
+	runDone          bool
+	ctlDone          bool
+	pausesDone       int
+	savesWhilePaused int
+	phase            *kit.Violation
 }
 
 // failPhase records the phase-order finding separately so that it does not hide
